@@ -77,6 +77,9 @@ func genC10(g *simrt.Tape, tier string) any {
 		sc.Callers = append(sc.Callers, cs)
 	}
 	sc.NestMw = g.Draw(5) == 0
+	if g.Draw(5) == 0 {
+		sc.TimeoutMwMs = []int{1, 5, 20, 100, 500, 3000}[g.Draw(6)]
+	}
 	sc.DefaultDialer = g.Draw(4) == 0
 	sc.DialCtxCancelled = g.Draw(4) == 0
 	closes := g.Draw(3) == 1
